@@ -1,5 +1,7 @@
 #!/usr/bin/env python3
-"""Regenerate known_findings.json from (a) the hand-written finding descriptions below and (b) the error
+"""(Calibration is an explicit act: VERIF_CALIB=1 tools/vcheck <id> --tier thorough --seed N on the unchanged /repo writes
+.cache/calib_official/*_over.json; nothing else does.)
+Regenerate known_findings.json from (a) the hand-written finding descriptions below and (b) the error
 envelopes measured by calibration runs (.cache/calib/*_over.json, via mkfindings).  Run by hand after a
 calibration sweep; the result is reviewed and committed.  Checks only READ known_findings.json."""
 import json, subprocess, sys, collections
@@ -25,6 +27,11 @@ FIXED = [
  ("C17", "70af163", "decasteljau: n_segments = floor((N-d)/((d-1)+1)) (misplaced parenthesis): too few windows; unsigned underflow and out-of-bounds reads for closed curves"),
 ]
 def main():
+    if "--fixed-only" in sys.argv:
+        # keep findings/envelopes as committed, refresh only the fixed: lines
+        doc = json.load(open("/verif/known_findings.json"))
+        doc["fixed"] = ["fixed: property=%s %s %s" % f for f in FIXED]
+        json.dump(doc, open("/verif/known_findings.json", "w"), indent=0); print("fixed list refreshed:", len(FIXED)); return
     findings = []
     for prop in ("C02", "C03", "C04", "C05", "C06"):
         env = json.loads(subprocess.check_output(["/verif/tools/mkfindings.py", prop, str(MARGIN)]).decode())
